@@ -307,3 +307,57 @@ def minimal_scan(ctx, node_fi, rule):
                '; `break` ends the scan, although a later, larger member can be incomparable with everything kept so far and minimal as well'),
                construct='minimal-members scan over ' + U(lp.iter)[:40])
     return n
+
+
+def buffered_accumulation(ctx, fi, rule):
+    """`X[I] += V` with I a LIST / ARRAY of positions is a buffered update in numpy: a position that occurs several times in I receives
+    only the last of its contributions (numpy.add.at / a loop accumulates them all).  Reported when I is a local collection that can hold a
+    position more than once: a list filled by `append` inside a loop with something other than the variable of the outermost loop between
+    its initialisation and the append.  Nothing is claimed about other index expressions (slices, masks, scalar positions)."""
+    raw = getattr(fi, 'original', fi)
+    n = 0
+    inits = {}
+    for a in ast.walk(raw.node):
+        if isinstance(a, ast.Assign) and len(a.targets) == 1:
+            tg, v = a.targets[0], a.value
+            if isinstance(tg, ast.Name) and isinstance(v, ast.List) and not v.elts:
+                inits[tg.id] = a
+            elif isinstance(tg, ast.Tuple) and isinstance(v, ast.Tuple) and len(tg.elts) == len(v.elts):
+                for t_, v_ in zip(tg.elts, v.elts):
+                    if isinstance(t_, ast.Name) and isinstance(v_, ast.List) and not v_.elts:
+                        inits[t_.id] = a
+    for st in ast.walk(raw.node):
+        if not (isinstance(st, ast.AugAssign) and isinstance(st.target, ast.Subscript) and isinstance(st.target.slice, ast.Name)):
+            continue
+        I = st.target.slice.id
+        if I not in inits:
+            continue
+        appends = [c for c in ast.walk(raw.node) if isinstance(c, ast.Call) and isinstance(c.func, ast.Attribute) and c.func.attr == 'append'
+                   and U(c.func.value) == I and len(c.args) == 1]
+        if not appends:
+            continue
+        may_repeat = False
+        for c in appends:
+            loops = []
+            x = c
+            while getattr(x, '_parent', None) is not None and x is not raw.node:
+                x = x._parent
+                if isinstance(x, (ast.For, ast.While)):
+                    loops.append(x)
+            if not loops:
+                continue
+            outer = loops[-1]
+            outer_vars = set()
+            if isinstance(outer, ast.For):
+                outer_vars = {t_.id for t_ in ast.walk(outer.target) if isinstance(t_, ast.Name)}
+            v = c.args[0]
+            if not (isinstance(v, ast.Name) and v.id in outer_vars and len(loops) == 1):
+                may_repeat = True
+        if not may_repeat:
+            continue
+        n += 1
+        ctx.ob(rule, fi, st, False,
+               '`%s`: `%s` is a list of positions collected in a loop and can name a position several times; a fancy-index update is buffered, '
+               'so such a position receives only the LAST of its contributions (numpy.add.at, or adding inside the loop, sums them)'
+               % (U(st)[:60], I), construct='accumulation through the index list `%s`' % I)
+    return n
